@@ -5,20 +5,71 @@ import (
 	"go/constant"
 	"go/token"
 	"go/types"
-	"os"
+	"sort"
 	"strings"
 
 	"golang.org/x/tools/go/ssa"
 )
 
+// EntryCfg is one harness entry of a property descriptor.
+type EntryCfg struct {
+	Fn        string         `json:"fn"`
+	Pkg       string         `json:"pkg,omitempty"`
+	Tiers     []string       `json:"tiers,omitempty"`
+	Unwind    int            `json:"unwind,omitempty"`
+	AllocMax  int            `json:"alloc_max,omitempty"`
+	TimeoutS  int            `json:"timeout_s,omitempty"`
+	Sched     string         `json:"sched,omitempty"` // "settle" (default) | "all"
+	MaxSwitch int            `json:"max_switch,omitempty"`
+	NoMerge   bool           `json:"no_merge,omitempty"`
+	MapOrder  string         `json:"map_order,omitempty"`
+	Params    map[string]int `json:"params,omitempty"`
+	NoNative  bool           `json:"no_native,omitempty"` // harness cannot be run natively (goroutines / virtual time)
+	Twin      string         `json:"twin,omitempty"`      // vacuity twin: this label MUST be reported violated
+	Reach     []string       `json:"reach,omitempty"`
+	MaxPaths  int            `json:"max_paths,omitempty"`
+	Events    bool           `json:"events,omitempty"`
+	Witnesses int            `json:"witnesses,omitempty"`
+}
+
+type Region struct {
+	ID   string
+	Term *Term
+}
+
+// Violation is a failed verification condition together with the solver's witness.
+type Violation struct {
+	Kind    string   `json:"kind"` // assert | panic | deadlock | unwind | leak
+	Label   string   `json:"label"`
+	Fn      string   `json:"fn"`
+	Status  string   `json:"status"` // sat | unknown
+	ND      []uint64 `json:"nd"`
+	Widths  []int    `json:"widths"`
+	Finding string   `json:"finding,omitempty"`
+	Trace   []string `json:"trace,omitempty"`
+	Count   int      `json:"count"`
+}
+
+// Witness is a completed path with a concrete input that drives it, used to validate the encoding natively.
+type Witness struct {
+	ND      []uint64 `json:"nd"`
+	Widths  []int    `json:"widths"`
+	Obs     []uint64 `json:"obs"`
+	Fails   []string `json:"fails"`
+	PCTerms int      `json:"pc_terms"`
+	Reached []string `json:"reached,omitempty"`
+}
+
 type Engine struct {
-	prog    *ssa.Program
-	sol     *Solver
-	globals map[*ssa.Global]int
-	inited  map[*ssa.Package]bool
+	prog     *ssa.Program
+	sol      *Solver
+	globals  map[*ssa.Global]int
+	inited   map[*ssa.Package]bool
 	initMode int
-	errType types.Type
+	errType  types.Type
 	pureMemo map[*ssa.Function]int
+	cfg      EntryCfg
+	kf       []KnownFinding
 
 	// config
 	noMerge   bool
@@ -29,14 +80,22 @@ type Engine struct {
 
 	// stats
 	paths, instrs, forks, merges, proved, unsupported, bigAlloc, approxEq, deadlocks int
-	violations []string
+	obligations, unknowns, unwindHits, assumeCut                                     int
+	asserted   map[string]int
+	aborts     map[string]int
+	viol       map[string]*Violation // new violations by kind|label
+	known      map[string]*Violation // known findings seen, by finding id
 	funcs      map[string]bool
 	reach      map[string]bool
-	ndCount    int
-	completed  []*State
+	ndVars     map[string]*Term
+	witnesses  []*Witness
+	evLogs     [][]string
 	curSt      *State
 	pendingEq  *Term
 	pendingKey string
+	pendingSplit []*State
+	initNotes  []string
+	stopped    bool
 }
 
 // ---------------- driver
@@ -47,6 +106,10 @@ func (e *Engine) drive(work []*State, barrierOut *[]*State) {
 	for len(work) > 0 {
 		st := work[len(work)-1]
 		work = work[:len(work)-1]
+		if e.cfg.MaxPaths > 0 && e.paths >= e.cfg.MaxPaths {
+			e.stopped = true
+			return
+		}
 		succ := e.step(st, barrierOut)
 		for i := len(succ) - 1; i >= 0; i-- {
 			work = append(work, succ[i])
@@ -54,13 +117,67 @@ func (e *Engine) drive(work []*State, barrierOut *[]*State) {
 	}
 }
 
+// completePath is called when the harness goroutine returns: counts the path and, for a sample of paths,
+// asks the solver for a concrete input that drives it (used for native validation of the encoding).
+func (e *Engine) completePath(st *State) {
+	if e.initMode > 0 {
+		return
+	}
+	e.paths++
+	if e.cfg.Events && len(st.events) > 0 {
+		e.evLogs = append(e.evLogs, append([]string(nil), st.events...))
+	}
+	want := e.cfg.Witnesses
+	if want == 0 {
+		want = 6
+	}
+	if len(e.witnesses) >= want && !(e.paths%17 == 0 && len(e.witnesses) < 4*want) {
+		return
+	}
+	terms := append([]*Term(nil), st.vars...)
+	terms = append(terms, st.obs...)
+	for _, a := range st.asserts {
+		terms = append(terms, a.cond)
+	}
+	res, m := e.sol.Check(append(append([]*Term(nil), st.pc...), B(true)), terms)
+	if res != "sat" {
+		return
+	}
+	val := func(t *Term) uint64 {
+		if t.IsConst() {
+			return t.Val
+		}
+		return m[e.sol.pr.name(t)]
+	}
+	w := &Witness{PCTerms: len(st.pc), Reached: st.reached}
+	w.ND, w.Widths = ndVector(st, m)
+	for _, o := range st.obs {
+		w.Obs = append(w.Obs, val(o))
+	}
+	for _, a := range st.asserts {
+		if val(a.cond) == 0 {
+			w.Fails = append(w.Fails, a.label)
+		}
+	}
+	e.witnesses = append(e.witnesses, w)
+}
+
 func (e *Engine) abort(st *State, why string) []*State {
 	e.unsupported++
 	st.aborted = why
-	if len(e.violations) < 40 {
-		e.violations = append(e.violations, "ABORTED(unsupported): "+why)
+	if len(why) > 200 {
+		why = why[:200]
 	}
+	e.aborts[why]++
 	return nil
+}
+
+func (e *Engine) check(st *State, c *Term, model bool) (string, map[string]uint64) {
+	var want []*Term
+	if model {
+		want = st.vars
+	}
+	return e.sol.Check(append(append([]*Term(nil), st.pc...), c), want)
 }
 
 func (e *Engine) feasible(st *State, c *Term) bool {
@@ -70,28 +187,201 @@ func (e *Engine) feasible(st *State, c *Term) bool {
 	if c.False() {
 		return false
 	}
-	r, _ := e.sol.Check(append(append([]*Term(nil), st.pc...), c), nil)
+	r, _ := e.check(st, c, false)
 	return r != "unsat"
 }
 
-func (e *Engine) vc(st *State, what string, bad *Term) {
-	if bad.False() {
-		e.proved++
-		return
+func ndVector(st *State, m map[string]uint64) ([]uint64, []int) {
+	nd := make([]uint64, len(st.vars))
+	ws := make([]int, len(st.vars))
+	for i, v := range st.vars {
+		nd[i] = m[v.Name]
+		ws[i] = v.W
 	}
-	r, m := e.sol.Check(append(append([]*Term(nil), st.pc...), bad), st.vars)
-	if r == "unsat" {
-		e.proved++
-		return
+	return nd, ws
+}
+
+func globMatch(pat, s string) bool {
+	if pat == "" || pat == "*" {
+		return true
 	}
-	ms := make([]string, 0, len(m))
-	for _, v := range st.vars {
-		if x, ok := m[v.Name]; ok {
-			x = strings.TrimSuffix(strings.TrimPrefix(x, "(("+v.Name+" "), "))")
-			ms = append(ms, v.Name+"="+x)
+	parts := strings.Split(pat, "*")
+	if len(parts) == 1 {
+		return pat == s
+	}
+	if !strings.HasPrefix(s, parts[0]) {
+		return false
+	}
+	s = s[len(parts[0]):]
+	for i := 1; i < len(parts)-1; i++ {
+		j := strings.Index(s, parts[i])
+		if j < 0 {
+			return false
+		}
+		s = s[j+len(parts[i]):]
+	}
+	return strings.HasSuffix(s, parts[len(parts)-1])
+}
+
+// activeRegions: regions registered on this path by vKnown whose finding is listed (known:) for a label pattern matching label.
+func (e *Engine) activeRegions(st *State, label string) []Region {
+	var out []Region
+	for _, k := range e.kf {
+		if k.Fixed || !globMatch(k.Label, label) {
+			continue
+		}
+		if k.Harness != "" && k.Harness != e.cfg.Fn {
+			continue
+		}
+		if t, ok := st.regions[k.ID]; ok {
+			out = append(out, Region{k.ID, t})
 		}
 	}
-	e.violations = append(e.violations, fmt.Sprintf("%s [%s] %s", what, r, strings.Join(ms, " ")))
+	return out
+}
+
+func (e *Engine) record(st *State, kind, label, status string, m map[string]uint64, finding string) {
+	nd, ws := ndVector(st, m)
+	fn := ""
+	if g := st.g(); g != nil && len(g.frames) > 0 {
+		fn = g.top().fn.String()
+	}
+	v := &Violation{Kind: kind, Label: label, Fn: fn, Status: status, ND: nd, Widths: ws, Finding: finding, Count: 1}
+	if len(st.trace) > 0 {
+		v.Trace = append([]string(nil), st.trace...)
+	}
+	if finding != "" {
+		if old := e.known[finding]; old != nil {
+			old.Count++
+			return
+		}
+		e.known[finding] = v
+		return
+	}
+	key := kind + "|" + label
+	if old := e.viol[key]; old != nil {
+		old.Count++
+		if old.Status != "sat" && status == "sat" {
+			v.Count = old.Count
+			e.viol[key] = v
+		}
+		return
+	}
+	e.viol[key] = v
+}
+
+// vc discharges one verification condition: "bad is unsatisfiable under the path condition", outside the
+// regions of listed known findings. It returns whether execution may continue under ¬bad (and asserts it).
+func (e *Engine) vc(st *State, kind, label string, bad *Term) bool {
+	e.obligations++
+	if bad.False() {
+		e.proved++
+		return true
+	}
+	regs := e.activeRegions(st, label)
+	q := bad
+	for _, r := range regs {
+		q = And(q, Not(r.Term))
+	}
+	ok := true
+	if !q.False() {
+		res, m := e.check(st, q, true)
+		switch res {
+		case "unsat":
+		case "sat":
+			ok = false
+			e.record(st, kind, label, "sat", m, "")
+		default:
+			ok = false
+			e.unknowns++
+			e.record(st, kind, label, "unknown", nil, "")
+		}
+	}
+	for _, r := range regs {
+		c := And(bad, r.Term)
+		if c.False() {
+			continue
+		}
+		res, m := e.check(st, c, true)
+		switch res {
+		case "sat":
+			e.record(st, kind, label, "sat", m, r.ID)
+		case "unsat":
+		default:
+			e.unknowns++
+		}
+	}
+	if ok {
+		e.proved++
+	}
+	if bad.True() {
+		return false
+	}
+	nb := Not(bad)
+	if !e.feasible(st, nb) {
+		return false
+	}
+	st.pc = append(st.pc, nb)
+	return true
+}
+
+// panicVC: a definite or conditional run-time panic at the current instruction.
+func (e *Engine) panicVC(st *State, what string, bad *Term) bool {
+	return e.vc(st, "panic", what, bad)
+}
+
+// enumValues enumerates the feasible values of t under the path condition (at most limit of them).
+func (e *Engine) enumValues(st *State, t *Term, limit int) (vals []uint64, complete bool) {
+	if t.IsConst() {
+		return []uint64{t.Val}, true
+	}
+	excl := B(true)
+	for len(vals) < limit {
+		res, m := e.sol.Check(append(append([]*Term(nil), st.pc...), excl), []*Term{t})
+		if res == "unsat" {
+			return vals, true
+		}
+		if res != "sat" {
+			e.unknowns++
+			return vals, false
+		}
+		v, ok := m[e.sol.pr.name(t)]
+		if !ok {
+			e.unknowns++
+			return vals, false
+		}
+		vals = append(vals, v)
+		excl = And(excl, Not(Cmp("=", t, C(v, t.W))))
+	}
+	res, _ := e.sol.Check(append(append([]*Term(nil), st.pc...), excl), nil)
+	return vals, res == "unsat"
+}
+
+// concretize forks st so that SSA value v (currently the symbolic term t) is a constant in each successor.
+// The current instruction is re-executed in every successor.
+func (e *Engine) concretize(st *State, v ssa.Value, t *Term, limit int, what string) []*State {
+	vals, complete := e.enumValues(st, t, limit)
+	if !complete {
+		e.bigAlloc++
+		e.aborts["value range not fully enumerated ("+what+")"]++
+		e.unsupported++
+	}
+	sort.Slice(vals, func(i, j int) bool { return vals[i] < vals[j] })
+	var out []*State
+	for i, val := range vals {
+		s2 := st
+		if i < len(vals)-1 {
+			s2 = st.clone()
+		}
+		c := C(val, t.W)
+		s2.pc = append(s2.pc, Cmp("=", t, c))
+		s2.g().top().locals[v] = c
+		out = append(out, s2)
+	}
+	if len(vals) > 1 {
+		e.forks += len(vals) - 1
+	}
+	return out
 }
 
 // fork on a symbolic boolean; returns states for true and false side (nil if infeasible).
@@ -255,6 +545,7 @@ func (e *Engine) enterBlock(st *State, fr *Frame, b *ssa.BasicBlock) bool {
 	fr.block = b
 	fr.visited[b]++
 	if fr.visited[b] > e.unwind {
+		e.unwindHits++
 		return false
 	}
 	var vals []Value
@@ -370,7 +661,7 @@ func (e *Engine) step(st *State, barrierOut *[]*State) []*State {
 				}
 				continue
 			}
-			e.vc(st, "explicit panic in "+fr.fn.String(), B(true))
+			e.panicVC(st, "explicit panic in "+fr.fn.String(), B(true))
 			return nil
 		case ssa.CallInstruction: // Call, Go, Defer
 			succ, cont := e.doCall(st, g, fr, x)
@@ -396,20 +687,25 @@ func (e *Engine) step(st *State, barrierOut *[]*State) []*State {
 				return e.abort(st, "make with opaque len")
 			}
 			if !n.IsConst() {
-				var res []*State
-				for v := 0; v <= e.allocMax; v++ {
-					c := Cmp("=", n, C(uint64(v), n.W))
-					if e.feasible(st, c) {
-						s2 := st.clone()
-						s2.pc = append(s2.pc, c)
-						s2.g().top().locals[x.Len] = C(uint64(v), n.W)
-						res = append(res, s2)
-					}
+				lim := uint64(e.allocMax + 1)
+				big := Cmp("bvugt", n, C(lim, n.W))
+				if al, ok := e.cfg.Params["alloc_limit"]; ok {
+					e.vc(st, "alloc", "allocation above alloc_limit in "+fr.fn.String(), Cmp("bvugt", n, C(uint64(al), n.W)))
 				}
-				if e.feasible(st, Cmp("bvugt", n, C(uint64(e.allocMax), n.W))) {
+				if e.feasible(st, big) {
+					// lengths above alloc_max+1 are represented by alloc_max+1 (stated in the evidence)
 					e.bigAlloc++
+					small := Not(big)
+					if !e.feasible(st, small) {
+						return e.abort(st, "make length always above alloc_max in "+fr.fn.String())
+					}
+					st.pc = append(st.pc, small)
 				}
-				return res
+				return e.concretize(st, x.Len, n, e.allocMax+3, "make length in "+fr.fn.String())
+			}
+			if int64(n.Val) < 0 || n.Val > 1<<24 {
+				e.panicVC(st, "makeslice: len out of range in "+fr.fn.String(), B(true))
+				return nil
 			}
 			capN := int(n.Val)
 			if cv, ok := e.get(st, fr, x.Cap).(*Term); ok && cv.IsConst() && int(cv.Val) > capN {
@@ -454,6 +750,9 @@ func (e *Engine) step(st *State, barrierOut *[]*State) []*State {
 				return out
 			}
 			if why != "" {
+				if why == "SPLIT" {
+					return e.pendingSplit
+				}
 				if strings.HasPrefix(why, "VC:") {
 					return nil
 				}
@@ -483,6 +782,9 @@ func (e *Engine) step(st *State, barrierOut *[]*State) []*State {
 				return out
 			}
 			if why != "" {
+				if why == "SPLIT" {
+					return e.pendingSplit
+				}
 				if strings.HasPrefix(why, "VC:") {
 					return nil
 				}
@@ -509,13 +811,7 @@ func (e *Engine) doReturn(st *State, g *G, fr *Frame, ret Value, barrierOut *[]*
 		g.status = gDone
 		g.retval = ret
 		if g.id == 0 {
-			e.paths++
-			e.completed = append(e.completed, st)
-			if lf := os.Getenv("EVLOG"); lf != "" && len(st.events) > 0 {
-				f, _ := os.OpenFile(lf, os.O_APPEND|os.O_CREATE|os.O_WRONLY, 0644)
-				fmt.Fprintf(f, "PATH\n%s\n", strings.Join(st.events, "\n"))
-				f.Close()
-			}
+			e.completePath(st)
 			return nil, true
 		}
 		return e.schedule(st), true
@@ -549,7 +845,7 @@ func (e *Engine) simple(st *State, fr *Frame, in ssa.Instruction) string {
 			return "FieldAddr on non-pointer"
 		}
 		if p.obj == 0 {
-			e.vc(st, "nil dereference (field address) in "+fr.fn.String(), B(true))
+			e.panicVC(st, "nil dereference (field address) in "+fr.fn.String(), B(true))
 			return "VC:"
 		}
 		fr.locals[x] = Ptr{p.obj, append(append([]int(nil), p.path...), x.Field)}
@@ -561,46 +857,80 @@ func (e *Engine) simple(st *State, fr *Frame, in ssa.Instruction) string {
 		fr.locals[x] = sv[x.Field]
 	case *ssa.IndexAddr:
 		i, ok := e.get(st, fr, x.Index).(*Term)
-		if !ok || !i.IsConst() {
-			return "symbolic index in " + fr.fn.String()
+		if !ok {
+			return "opaque index in " + fr.fn.String()
 		}
-		switch b := e.get(st, fr, x.X).(type) {
+		n := -1
+		base := e.get(st, fr, x.X)
+		switch b := base.(type) {
 		case Ptr:
 			if b.obj == 0 {
-				e.vc(st, "nil dereference (index) in "+fr.fn.String(), B(true))
+				e.panicVC(st, "nil dereference in "+fr.fn.String(), B(true))
 				return "VC:"
 			}
-			n := len(st.load(b).(StructV))
-			if int(i.Val) >= n {
-				e.vc(st, "index out of range in "+fr.fn.String(), B(true))
-				return "VC:"
-			}
-			fr.locals[x] = Ptr{b.obj, append(append([]int(nil), b.path...), int(i.Val))}
+			n = len(st.load(b).(StructV))
 		case SliceV:
-			if int64(i.Val) < 0 || int(i.Val) >= b.n {
-				e.vc(st, fmt.Sprintf("index out of range [%d] with length %d in %s", int64(i.Val), b.n, fr.fn), B(true))
-				return "VC:"
-			}
-			fr.locals[x] = Ptr{b.arr, append(decPath(b.apath), b.off+int(i.Val))}
+			n = b.n
 		default:
 			return "IndexAddr on ?"
 		}
+		if !i.IsConst() {
+			if !e.panicVC(st, "index out of range in "+fr.fn.String(), Cmp("bvuge", i, C(uint64(n), i.W))) {
+				return "VC:"
+			}
+			e.pendingSplit = e.concretize(st, x.Index, i, n+1, "index in "+fr.fn.String())
+			return "SPLIT"
+		}
+		if int64(i.Val) < 0 || int(i.Val) >= n {
+			e.panicVC(st, "index out of range in "+fr.fn.String(), B(true))
+			return "VC:"
+		}
+		switch b := base.(type) {
+		case Ptr:
+			fr.locals[x] = Ptr{b.obj, append(append([]int(nil), b.path...), int(i.Val))}
+		case SliceV:
+			fr.locals[x] = Ptr{b.arr, append(decPath(b.apath), b.off+int(i.Val))}
+		}
 	case *ssa.Index:
 		i, ok := e.get(st, fr, x.Index).(*Term)
-		if !ok || !i.IsConst() {
-			return "symbolic index"
+		if !ok {
+			return "opaque index"
 		}
-		switch b := e.get(st, fr, x.X).(type) {
+		n := -1
+		base := e.get(st, fr, x.X)
+		switch b := base.(type) {
+		case StructV:
+			n = len(b)
+		case string:
+			n = len(b)
+		default:
+			return "Index on ?"
+		}
+		if !i.IsConst() {
+			if !e.panicVC(st, "index out of range in "+fr.fn.String(), Cmp("bvuge", i, C(uint64(n), i.W))) {
+				return "VC:"
+			}
+			if sv, isArr := base.(StructV); isArr && allTerms(sv) && n <= 64 {
+				// ite-chain read of a scalar array
+				var r *Term = sv[n-1].(*Term)
+				for k := n - 2; k >= 0; k-- {
+					r = Ite(Cmp("=", i, C(uint64(k), i.W)), sv[k].(*Term), r)
+				}
+				fr.locals[x] = r
+				break
+			}
+			e.pendingSplit = e.concretize(st, x.Index, i, n+1, "index in "+fr.fn.String())
+			return "SPLIT"
+		}
+		if int64(i.Val) < 0 || int(i.Val) >= n {
+			e.panicVC(st, "index out of range in "+fr.fn.String(), B(true))
+			return "VC:"
+		}
+		switch b := base.(type) {
 		case StructV:
 			fr.locals[x] = b[int(i.Val)]
 		case string:
-			if int(i.Val) >= len(b) {
-				e.vc(st, "string index out of range", B(true))
-				return "VC:"
-			}
 			fr.locals[x] = C(uint64(b[i.Val]), 8)
-		default:
-			return "Index on ?"
 		}
 	case *ssa.UnOp:
 		v := e.get(st, fr, x.X)
@@ -611,7 +941,7 @@ func (e *Engine) simple(st *State, fr *Frame, in ssa.Instruction) string {
 				return "load through non-pointer"
 			}
 			if p.obj == 0 {
-				e.vc(st, "nil dereference (load) in "+fr.fn.String(), B(true))
+				e.panicVC(st, "nil dereference (load) in "+fr.fn.String(), B(true))
 				return "VC:"
 			}
 			fr.locals[x] = st.load(p)
@@ -633,7 +963,7 @@ func (e *Engine) simple(st *State, fr *Frame, in ssa.Instruction) string {
 			return "store through non-pointer"
 		}
 		if p.obj == 0 {
-			e.vc(st, "nil dereference (store) in "+fr.fn.String(), B(true))
+			e.panicVC(st, "nil dereference (store) in "+fr.fn.String(), B(true))
 			return "VC:"
 		}
 		st.store(p, e.get(st, fr, x.Val))
@@ -696,7 +1026,7 @@ func (e *Engine) simple(st *State, fr *Frame, in ssa.Instruction) string {
 	case *ssa.MapUpdate:
 		mp := e.get(st, fr, x.Map).(Ptr)
 		if mp.obj == 0 {
-			e.vc(st, "assignment to entry in nil map in "+fr.fn.String(), B(true))
+			e.panicVC(st, "assignment to entry in nil map in "+fr.fn.String(), B(true))
 			return "VC:"
 		}
 		mm := st.heap[mp.obj].v.(*MapModel)
@@ -790,7 +1120,7 @@ func (e *Engine) simple(st *State, fr *Frame, in ssa.Instruction) string {
 			fr.locals[x] = TupleV{res, B(ok)}
 		} else {
 			if !ok {
-				e.vc(st, fmt.Sprintf("failed type assertion to %v (dynamic type %v) in %s", x.AssertedType, iv.t, fr.fn), B(true))
+				e.panicVC(st, fmt.Sprintf("failed type assertion to %v (dynamic type %v) in %s", x.AssertedType, iv.t, fr.fn), B(true))
 				return "VC:"
 			}
 			fr.locals[x] = res
@@ -802,75 +1132,107 @@ func (e *Engine) simple(st *State, fr *Frame, in ssa.Instruction) string {
 	return ""
 }
 
+func allTerms(sv StructV) bool {
+	if len(sv) == 0 {
+		return false
+	}
+	w := -1
+	for _, v := range sv {
+		t, ok := v.(*Term)
+		if !ok {
+			return false
+		}
+		if w >= 0 && t.W != w {
+			return false
+		}
+		w = t.W
+	}
+	return true
+}
+
 func (e *Engine) sliceInstr(st *State, fr *Frame, x *ssa.Slice) string {
-	lo, hi := 0, -1
+	where := " in " + fr.fn.String()
+	// capacity / length limits of the operand
+	capN, lenN := -1, -1
+	base := e.get(st, fr, x.X)
+	switch b := base.(type) {
+	case SliceV:
+		capN, lenN = b.cap, b.n
+	case Ptr:
+		if b.obj == 0 {
+			e.panicVC(st, "nil dereference"+where, B(true))
+			return "VC:"
+		}
+		capN = len(st.load(b).(StructV))
+		lenN = capN
+	case string:
+		capN, lenN = len(b), len(b)
+	default:
+		return "slice of ?" + where
+	}
+	var loT, hiT, maxT *Term
 	if x.Low != nil {
 		t, ok := e.get(st, fr, x.Low).(*Term)
-		if !ok || !t.IsConst() {
-			return "symbolic slice bound in " + fr.fn.String()
+		if !ok {
+			return "opaque slice bound" + where
 		}
-		lo = int(int64(t.Val))
+		loT = t
+	} else {
+		loT = C(0, 64)
 	}
 	if x.High != nil {
 		t, ok := e.get(st, fr, x.High).(*Term)
 		if !ok {
-			return "opaque slice bound in " + fr.fn.String()
+			return "opaque slice bound" + where
 		}
-		if !t.IsConst() {
-			// VC: lo <= hi <= cap
-			capN := -1
-			switch b := e.get(st, fr, x.X).(type) {
-			case SliceV:
-				capN = b.cap
-			case Ptr:
-				if b.obj != 0 {
-					capN = len(st.load(b).(StructV))
-				}
-			}
-			if capN >= 0 {
-				bad := Or(Cmp("bvslt", t, C(uint64(lo), t.W)), Cmp("bvsgt", t, C(uint64(capN), t.W)))
-				e.vc(st, fmt.Sprintf("slice bounds out of range [%d:hi] with capacity %d, hi symbolic, in %s", lo, capN, fr.fn), bad)
-			}
-			return "symbolic slice bound (after VC) in " + fr.fn.String()
-		}
-		hi = int(int64(t.Val))
+		hiT = t
+	} else {
+		hiT = C(uint64(lenN), 64)
 	}
-	switch b := e.get(st, fr, x.X).(type) {
+	if x.Max != nil {
+		t, ok := e.get(st, fr, x.Max).(*Term)
+		if !ok {
+			return "opaque slice bound" + where
+		}
+		maxT = t
+	} else {
+		maxT = C(uint64(capN), 64)
+	}
+	if !loT.IsConst() || !hiT.IsConst() || !maxT.IsConst() {
+		limit := C(uint64(capN), 64)
+		if _, isStr := base.(string); isStr {
+			limit = C(uint64(lenN), 64)
+		}
+		okT := And(And(Cmp("bvsle", C(0, 64), loT), Cmp("bvsle", loT, hiT)), And(Cmp("bvsle", hiT, maxT), Cmp("bvsle", maxT, limit)))
+		if !e.panicVC(st, "slice bounds out of range"+where, Not(okT)) {
+			return "VC:"
+		}
+		switch {
+		case !hiT.IsConst():
+			e.pendingSplit = e.concretize(st, x.High, hiT, capN+2, "slice bound"+where)
+		case !loT.IsConst():
+			e.pendingSplit = e.concretize(st, x.Low, loT, capN+2, "slice bound"+where)
+		default:
+			e.pendingSplit = e.concretize(st, x.Max, maxT, capN+2, "slice bound"+where)
+		}
+		return "SPLIT"
+	}
+	lo, hi, mx := int(int64(loT.Val)), int(int64(hiT.Val)), int(int64(maxT.Val))
+	limit := capN
+	if _, isStr := base.(string); isStr {
+		limit = lenN
+	}
+	if lo < 0 || lo > hi || hi > mx || mx > limit {
+		e.panicVC(st, "slice bounds out of range"+where, B(true))
+		return "VC:"
+	}
+	switch b := base.(type) {
 	case Ptr:
-		if b.obj == 0 {
-			e.vc(st, "nil dereference (slice of array pointer)", B(true))
-			return "VC:"
-		}
-		n := len(st.load(b).(StructV))
-		if hi < 0 {
-			hi = n
-		}
-
-		if lo < 0 || lo > hi || hi > n {
-			e.vc(st, fmt.Sprintf("slice bounds out of range [%d:%d] with capacity %d in %s", lo, hi, n, fr.fn), B(true))
-			return "VC:"
-		}
-		fr.locals[x] = SliceV{arr: b.obj, off: lo, n: hi - lo, cap: n - lo, apath: encPath(b.path)}
+		fr.locals[x] = SliceV{arr: b.obj, off: lo, n: hi - lo, cap: mx - lo, apath: encPath(b.path)}
 	case SliceV:
-		if hi < 0 {
-			hi = b.n
-		}
-		if lo < 0 || lo > hi || hi > b.cap {
-			e.vc(st, fmt.Sprintf("slice bounds out of range [%d:%d] with capacity %d in %s", lo, hi, b.cap, fr.fn), B(true))
-			return "VC:"
-		}
-		fr.locals[x] = SliceV{arr: b.arr, off: b.off + lo, n: hi - lo, cap: b.cap - lo, isNil: b.isNil && hi == 0, apath: b.apath}
+		fr.locals[x] = SliceV{arr: b.arr, off: b.off + lo, n: hi - lo, cap: mx - lo, isNil: b.isNil && hi == 0, apath: b.apath}
 	case string:
-		if hi < 0 {
-			hi = len(b)
-		}
-		if lo < 0 || lo > hi || hi > len(b) {
-			e.vc(st, "string slice bounds out of range", B(true))
-			return "VC:"
-		}
 		fr.locals[x] = b[lo:hi]
-	default:
-		return "slice of ?"
 	}
 	return ""
 }
